@@ -49,6 +49,7 @@ import numpy as np
 
 from .. import bootstrap, leanio
 from . import est_common as EC
+from . import losscommon as LC
 
 PROP = "C17"
 LEAN = {"module": "Pygom.Props.C17",
@@ -57,8 +58,8 @@ LEAN = {"module": "Pygom.Props.C17",
                      "Pygom.C17.quantileLinear_le_maxL", "Pygom.C17.par_order_binds_by_name_partial",
                      "Pygom.C17.par_order_direct_loss_counterexample", "Pygom.C17.parOrderBy_binds_by_name",
                      "Pygom.C17.get_forgets_state", "Pygom.C17.continue_reads_only_N_finalTol", "Pygom.C17.genLoop_ignores_initial_dist"]}
-BUDGET = {"quick": {"runs": 72, "direct": 10, "malformed": 8, "N": (30, 45), "Gmax": 3},
-          "thorough": {"runs": 800, "direct": 80, "malformed": 40, "N": (30, 60), "Gmax": 4}}
+BUDGET = {"quick": {"runs": 72, "direct": 10, "malformed": 8, "nanregion": 10, "N": (30, 45), "Gmax": 3},
+          "thorough": {"runs": 800, "direct": 80, "malformed": 40, "nanregion": 100, "N": (30, 60), "Gmax": 4}}
 RULE = ("real ABC runs on SIR_norm/SIR/SIS/SEIR with SquareLoss/NormalLoss/PoissonLoss, 1-3 inferred parameters (+ optionally an "
         "inferred initial state, a population constraint), uniform/gamma/normal priors, log-scale flags, Parameter list in "
         "random order; schedules: rejection, tolerance list, quantile, MNN (M<N-1 and M=N-1), followed by 0-2 "
@@ -232,6 +233,37 @@ def gen_run(rng, budget, direct=False):
     return case
 
 
+def gen_nanregion(rng, budget):
+    """ROUND D: a loss that is NOT A NUMBER over part of the prior region.  PoissonLoss on the infectious compartment of SIR / SIS /
+    SEIR (head counts) over twice the usual horizon, with a recovery-rate prior reaching far above the truth: where the epidemic
+    dies out quickly the integrator undershoots zero (-1e-12) and the Poisson log-pmf of a negative mean is NaN.  Such a trial has no
+    distance: it must never be stored.  Tolerances as rejection / list (a quantile of distances that may contain wrong zeros
+    would make a broken tree spin instead of fail)."""
+    case = gen_run(rng, budget)
+    model = rng.choice(["SIR", "SIS", "SEIR"])
+    cat = EC.CATALOGUE[model]
+    vals, x0, t = EC.draw_setup(rng, model, n_obs=rng.randint(8, 14))
+    t = [round(2.0 * v, 6) for v in t]
+    plist = [{"name": "gamma", "prior": ["unif", 0.0, round(rng.uniform(2.0, 4.0), 3)], "logscale": False}]
+    logscale = rng.random() < 0.4
+    plist.append({"name": "beta", "prior": _prior_for(rng, vals["beta"], logscale), "logscale": logscale})
+    rng.shuffle(plist)
+    N = rng.randint(*budget["N"])
+    if rng.random() < 0.4:
+        calls = [{"cont": False, "N": N, "M": None, "q": None, "G": 1, "tol": {"pilot": rng.choice([0.5, 0.6, 0.7])}, "tol_form": rng.choice(SCALAR_FORMS)}]
+    else:
+        G = rng.randint(2, 3)
+        ps = sorted([rng.uniform(0.35, 0.8) for _ in range(G)], reverse=True)
+        calls = [{"cont": False, "N": N, "M": None, "q": None, "G": G, "tol": {"pilot_list": [round(v, 3) for v in ps]}, "tol_form": rng.choice(LIST_FORMS)}]
+    if rng.random() < 0.4:
+        calls.append({"cont": True, "N": N, "M": None, "q": None, "G": 1, "tol": {"shrink": round(rng.uniform(0.1, 0.3), 3)}, "tol_form": rng.choice(SCALAR_FORMS)})
+    case.update({"kind": "create_loss", "model": model, "values": vals, "x0": x0, "t": t, "loss": "PoissonLoss", "obs": rng.choice([["I"], ["I"], ["I", "R"] if "R" in cat["states"] else ["I"]]),
+                 "sigma": None, "noise": "noisy", "params": plist, "constraint": None, "calls": calls, "nanregion": True,
+                 "extras": {"second_abc": False, "deepcopy": rng.random() < 0.3}})
+    case.pop("direct", None)
+    return case
+
+
 def gen_malformed(rng, budget):
     case = gen_run(rng, budget)
     N = case["calls"][0]["N"]
@@ -264,11 +296,14 @@ def make_cases(rng, tier, budget):
         cases.append(gen_run(random.Random(rng.getrandbits(64)), budget, direct=True))
     for _ in range(budget["malformed"]):
         cases.append(gen_malformed(random.Random(rng.getrandbits(64)), budget))
+    for _ in range(budget.get("nanregion", 0)):          # drawn last: the earlier cases are the same as before
+        cases.append(gen_nanregion(random.Random(rng.getrandbits(64)), budget))
     return cases
 
 
 def search_cases(rng, tier, budget):
-    return [gen_run(random.Random(rng.getrandbits(64)), budget, direct=(i % 5 == 0)) for i in range(budget["runs"] * 2)]
+    return [(gen_nanregion if i % 6 == 5 else gen_run)(random.Random(rng.getrandbits(64)), budget, **({} if i % 6 == 5 else {"direct": (i % 5 == 0)}))
+            for i in range(budget["runs"] * 2)]
 
 
 # ---------------------------------------------------------------------------------------------------------
@@ -341,6 +376,58 @@ class Recomputer:
         if self.snames or self.case.get("constraint"):
             return None
         return self.build({n: self.case["values"][n] for n in self.pnames})
+
+    # ---- ROUND D: the cost at a particle WITHOUT BaseLoss.cost (and without any loss object): a trajectory of a fresh model and
+    # the closed-form negative log-likelihood / sum of squares of the named loss (losscommon.ref_cost, the formulas C06 / C14 use).
+    # `BaseLoss.cost` post-processes its value (`nan_to_num` of +inf): a recomputation through a fresh loss object inherits whatever
+    # that post-processing does (seeded C17-d1: NaN -> 0.0, accepted at every tolerance with stored distance 0).
+    def _x0_values(self, nat):
+        c = self.case
+        x0 = list(c["x0"])
+        for s in self.snames:
+            x0[self.states.index(s)] = nat[s]
+        if c.get("constraint"):
+            tot, cs = c["constraint"]
+            k = self.states.index(cs)
+            x0[k] = tot - sum(v for i, v in enumerate(x0) if i != k)
+        vals = dict(c["values"])
+        for n in self.pnames:
+            vals[n] = nat[n]
+        return x0, vals
+
+    def _closed(self, yhat):
+        c = self.case
+        oidx = [self.states.index(s) for s in c["obs"]]
+        yh = np.asarray(yhat, float)[:, oidx]
+        y2 = np.asarray(self.y, float).reshape(yh.shape)
+        cls = {"SquareLoss": "Square", "NormalLoss": "Normal", "PoissonLoss": "Poisson"}[c["loss"]]
+        spread = c.get("sigma") if cls == "Normal" else None
+        with np.errstate(all="ignore"):
+            return LC.ref_cost(cls, y2, yh, 1.0, spread), (cls, y2, yh, spread)
+
+    def cost_closed(self, particle):
+        """closed-form loss of the trajectory pygom's own integrator (ode_utils.integrateFuncJac, the one the loss objects use)
+        returns for a FRESH model at the particle; no loss object involved"""
+        from pygom.model import ode_utils
+        nat = self.natural(particle)
+        x0, vals = self._x0_values(nat)
+        m = EC.make_model(self.case["model"], vals)
+        t = self.case["t"]
+        sol = ode_utils.integrateFuncJac(m.ode_T, m.jacobian_T, np.array(x0, float), t[0], np.array(t[1:], float), full_output=False, method=m._intName)
+        return self._closed(sol)
+
+    def cost_reference(self, particle):
+        """the same closed form on a reference trajectory (DOP853, rtol 1e-12): independent of pygom's integrator as well"""
+        from scipy.integrate import solve_ivp
+        nat = self.natural(particle)
+        x0, vals = self._x0_values(nat)
+        m = EC.make_model(self.case["model"], vals)
+        t = self.case["t"]
+        sol = solve_ivp(lambda tt, xx: np.asarray(m.ode(xx, tt), float).ravel(), (t[0], t[-1]), np.array(x0, float), method="DOP853",
+                        t_eval=np.array(t[1:], float), rtol=1e-12, atol=1e-13 * (1.0 + max(abs(v) for v in x0)))
+        if not sol.success:
+            return None, None
+        return self._closed(sol.y.T)
 
 
 def make_data(case):
@@ -554,6 +641,7 @@ def run_case(case):
     if case.get("constraint"): tags.append("constraint")
     if order_differs: tags.append("direct_order_differs")
     if case.get("malformed"): tags.append("malformed:" + case["malformed"])
+    if case.get("nanregion"): tags.append("family:nan-region")
 
     # --- par_order and the name binding against the model ------------------------------------------------
     drv = leanio.driver()
@@ -582,7 +670,8 @@ def run_case(case):
     for _ in range(50):
         v = [prior_sample(p["prior"], rs) for p in plist]
         try:
-            c = rec_cost.cost(v, pobj)
+            # (nan-region cases: the pilot costs without BaseLoss.cost as well - a wrong 0.0 there would put the tolerances at 0)
+            c = rec_cost.cost_closed(v)[0] if case.get("nanregion") else rec_cost.cost(v, pobj)
         except Exception:
             c = float("nan")
         if math.isfinite(c):
@@ -823,6 +912,14 @@ def oracle(case, ci, call, abc, rec_cost, plist, history_tols, prev_final, sig_c
                          "detail": "particle %d = %s : abc.dist=%r recomputed=%r ; names %s" % (
                              i, dict(zip([p["name"] for p in plist], [float(v) for v in res[i]])), float(dist[i]), c, [p["name"] for p in plist])})
             return
+        # ROUND D: the same comparison WITHOUT BaseLoss.cost - closed-form loss of a fresh model's trajectory (NaN is not 0)
+        bad = closed_cost_check(rec_cost, res[i], float(dist[i]), tags)
+        if bad is not None:
+            viol.append({"what": "stored distance is not the loss at the particle recomputed without BaseLoss.cost (fresh model trajectory + closed-form "
+                                 "%s of the observations): %s" % ("sum of squares" if loss == "SquareLoss" else "negative log-likelihood", bad[1]),
+                         "signature": "dist-not-closed-form-cost:%s:%s:%s" % (bad[0], sig_class, loss),
+                         "detail": "particle %d = %s : abc.dist=%r ; %s" % (i, dict(zip([p["name"] for p in plist], [float(v) for v in res[i]])), float(dist[i]), bad[2])})
+            return
         if not (dist[i] < gen_tol):
             viol.append({"what": "stored distance not below the tolerance recorded for its generation (abc.tolerances[-1])", "signature": "dist-not-below-tolerance:" + sig_class,
                          "detail": "particle %d dist=%r recorded tolerance=%r applied=%r tol argument form %s" % (i, float(dist[i]), gen_tol, gen_applied, call.get("tol_form"))})
@@ -859,6 +956,40 @@ def oracle(case, ci, call, abc, rec_cost, plist, history_tols, prev_final, sig_c
                 viol.append({"what": "tolerance increased along a get/continue sequence", "signature": "tolerance-increased:sequence:" + sig_class,
                              "detail": "history %s" % history_tols})
                 return
+
+
+def closed_cost_check(rec_cost, particle, d, tags):
+    """None when the stored distance `d` is the closed-form loss at the particle, else (class, what, detail).
+    Stage 1: trajectory by pygom's integrator on a fresh model (what the loss object integrates, so normally equal to rounding).
+    Stage 2 (only when stage 1 is not a number or disagrees): reference trajectory (DOP853 1e-12); tolerance = losscommon.cost_tolerance
+    (1e-6 of the summed absolute terms + the change of the loss under a perturbation of the prediction by 1e-7 (1+|yhat|))."""
+    try:
+        cc, (cls, y2, yh, spread) = rec_cost.cost_closed(particle)
+    except Exception as exc:
+        tags.append("closed-cost:raised:" + type(exc).__name__)
+        return None
+    def tol_of(yh_):
+        with np.errstate(all="ignore"):
+            tl = LC.cost_tolerance(cls, y2, yh_, 1.0, spread)
+        return tl if math.isfinite(tl) else 0.0
+    if math.isfinite(cc) and math.isfinite(d) and abs(cc - d) <= tol_of(yh):
+        tags.append("closed-cost:agrees")
+        return None
+    if math.isinf(cc) and cc > 0 and d >= 1e300:
+        tags.append("closed-cost:+inf-stored-as-largest-float")     # BaseLoss.cost's documented nan_to_num of +inf
+        return None
+    try:
+        cr, pack = rec_cost.cost_reference(particle)
+    except Exception as exc:
+        cr, pack = None, None
+    if cr is not None and math.isfinite(cr) and math.isfinite(d) and abs(cr - d) <= tol_of(pack[2]):
+        tags.append("closed-cost:agrees-with-reference-trajectory-only")
+        return None
+    neg = int(np.sum(yh < 0))
+    if not math.isfinite(cc):
+        return ("cost-not-a-number", "the loss there is %r (pygom's trajectory has %d negative predictions) but a number is stored" % (cc, neg),
+                "closed form on pygom's trajectory %r, on the reference trajectory %r" % (cc, cr))
+    return ("value", "closed form %r" % cc, "closed form on pygom's trajectory %r, on the reference trajectory %r, tolerance %.3g" % (cc, cr, tol_of(yh)))
 
 
 def inputs_differ_by_rounding(case, rec_cost, particle, stream):
